@@ -11,7 +11,7 @@ PLAN_ENTRY = {'stages': [
     'assumptions': [
         'TLC model-checks the set_params / residuals / jacobian protocol for every call order (3 abstract parameter vectors, 4 reports)',
         'derived observations: the distance of a moved point to the reference is recomputed by the harness through the library closest-point queries (validated by C02), independently of the optimiser state',
-        'convergence of Levenberg-Marquardt is a numerical fact: the spec states the fixed-point relation and checks it on recorded runs; basin = rotations <= ~15 deg (2D) / ~6 deg (3D), shifts <= 3/8 unit',
+        'convergence of Levenberg-Marquardt is a numerical fact: the spec states the fixed-point relation and checks it on recorded runs; basin = rotations <= ~15 deg (2D) / ~6 deg (3D), shifts <= 3/8 unit for the enumerated cases with full sample sets; for random sample subsets: no sample displaced by more than 1/2 unit (a quarter of the smallest feature)',
         'point mode is not differentiable at exactly zero distance: displacements leaving whole faces at distance 0 are excluded from the recovery clause',
     ]}
 
@@ -22,7 +22,7 @@ CLAIM = {
     'technique': 'TLA+ protocol spec model-checked by TLC (incl. negative model) + trace validation of hook-recorded solver runs against it',
 }
 
-ROTS2 = [(1, 0, 1), (63, 16, 65), (63, -16, 65), (35, 12, 37), (399, -40, 401), (99, 20, 101), (40, -9, 41)]
+ROTS2 = [(1, 0, 1), (1, 0, 1), (63, 16, 65), (63, -16, 65), (35, 12, 37), (399, -40, 401), (399, 40, 401), (899, -60, 901), (99, 20, 101), (40, -9, 41)]
 ELL = [[0, 0, 0], [6, 0, 0], [6, 2, 0], [2, 2, 0], [2, 5, 0], [0, 5, 0]]
 ELLS = [[2, 0, 0], [6, 0, 0], [10, 0, 0], [12, 2, 0], [10, 4, 0], [6, 4, 0], [4, 6, 0], [4, 8, 0], [2, 10, 0], [0, 8, 0], [0, 4, 0], [0, 1, 0], [9, 0, 0], [12, 3, 0]]
 
@@ -34,5 +34,12 @@ def gen_c07_random(rnd, tier):
         c, s, h = rnd.choice(ROTS2)
         D = {'M': [[c, -s, 0], [s, c, 0], [0, 0, h]], 'H': h, 't': [rnd.randint(-3, 3), rnd.randint(-3, 3), 0], 'tden': 8}
         k = rnd.randint(8, len(ELLS))
-        out.append({'m': 'align', 'op': 'curve', 'ref': ELL, 'samples': rnd.sample(ELLS, k) if k >= 10 else ELLS, 'D': D, 'guess': rnd.randint(0, 2), 'off': rnd.choice([[0, 0, 0], [150, -90, 0], [-400, 250, 0]]), 'basin': True})
+        samples = rnd.sample(ELLS, k) if k >= 10 else ELLS
+        # stated basin for random sample subsets: no sample is displaced by more than a quarter of the smallest feature
+        # (the 2-unit notch), i.e. 1/2 unit; beyond that closest-point alignment may legitimately settle in a local minimum
+        def moved(p):
+            x, y = p[0] / 2.0, p[1] / 2.0
+            return ((c * x - s * y) / h + D['t'][0] / 8.0 - x, (s * x + c * y) / h + D['t'][1] / 8.0 - y)
+        basin = all(dx * dx + dy * dy <= 0.25 for dx, dy in map(moved, samples))
+        out.append({'m': 'align', 'op': 'curve', 'ref': ELL, 'samples': samples, 'D': D, 'guess': rnd.randint(0, 2), 'off': rnd.choice([[0, 0, 0], [150, -90, 0], [-400, 250, 0]]), 'basin': basin})
     return out
